@@ -133,6 +133,13 @@ struct Scenario {
 				if (mc::readFile("xall/" + names[i]) != content) { bad("extract-all-bytes", s, names[i]); ok = false; return; }
 				static_cast<Archive::ArchiveFile&>(v).ExtractFile(names[i], "xone/" + names[i]);   // the by-name overload lives in the base class
 				if (mc::readFile("xone/" + names[i]) != content) { bad("extract-by-name-bytes", s, names[i]); ok = false; return; }
+				{
+					// the by-name variant of the member stream (base-class overload), under a different spelling of the name
+					auto sn = static_cast<Archive::ArchiveFile&>(v).OpenStream(i % 2 ? upper(names[i]) : "./" + lower(names[i]));
+					std::vector<uint8_t> gn(std::size_t(sn->Length()));
+					if (!gn.empty()) sn->Read(gn.data(), gn.size());
+					if (gn != content) { bad("stream-by-name-bytes", s, names[i]); ok = false; return; }
+				}
 				v.ExtractFile(i, "xone/i" + std::to_string(i));
 				if (mc::readFile("xone/i" + std::to_string(i)) != content) { bad("extract-by-index-bytes", s, names[i]); ok = false; return; }
 				{
